@@ -60,6 +60,8 @@ def _run(case, parallel):
         try:
             eng = Engine(processes=procs, topology=topo, emitter={'type': 'ram'}, display_info=False,
                          progress_bar=False)
+            # the published composite names the process as the serial run does
+            out[f'name{r}'] = getattr(eng.processes['agents']['m']['secrete'], 'name', None)
             eng.update(case['ticks'])
             out[f'run{r}'] = _rows(eng)
         except Exception as e:  # noqa
@@ -97,6 +99,9 @@ def oracle(case, impl):
         fails.append(f'transparent: {case["how"]} of the compartment at t={case["at"]} (its process: timestep '
                      f'{case["ts"]}, writing to a pool outside): the serial run emits {str(s.get("run0"))[:300]}, the '
                      f'parallel run {str(p.get("run0"))[:300]}')
+    if p.get('name0') != s.get('name0'):
+        fails.append(f'published-name: the process is published under the name {s.get("name0")!r} in the serial run and '
+                     f'{p.get("name0")!r} in the parallel run')
     if case['twice']:
         if isinstance(s.get('run1'), str):
             return fails
